@@ -139,6 +139,11 @@ func (self Compiler) codeLen() int { return len(self.CurrFn().Instructions) }
 // host calls) and join points (labels) are accounted for where they are
 // emitted. The convention the contracts state: a statement leaves the depth
 // unchanged, an expression leaves exactly one value, a block vBlockLeaves(b).
+// ghost(floor) is the depth at the entry of the innermost enclosing loop body
+// (0 in a function body): `break`/`continue`/`return` jump to code that
+// expects exactly that depth. The three assertions that say so do NOT hold
+// for the code as it is - an exit from inside an expression (`1 + { return 2; }`)
+// leaves the operands pushed so far behind: see /verif/known_findings.json.
 
 // VStackEffect: operands pushed minus operands popped by an instruction whose
 // effect is fixed by its opcode (0 for the others, see above). Throw is
@@ -424,6 +429,8 @@ func vInfixShape(op pAst.InfixOperator) int {
 @*/
 
 /*@ func (self *Compiler) compileFn
+    ghostat @function-floor before mpIdx := self.insert(newOneIntInstruction(Opcode_AddMempointer, 0), node.Range) :: floor = 0
+    ghostat @floor-of-the-enclosing-function before return annotations, mangledFn :: floor = old(ghost(floor))
     ghostat @function-entry before mpIdx := self.insert(newOneIntInstruction(Opcode_AddMempointer, 0), node.Range) :: depth = 0
     ghostat @parameter-was-pushed-by-the-caller after self.insert(newOneStringInstruction(Opcode_SetVarImm, name), node.Range) :: depth = ghost(depth) + 1
     ghostat @back-in-the-enclosing-function before return annotations, mangledFn :: depth = old(ghost(depth))
@@ -524,6 +531,10 @@ func vInfixShape(op pAst.InfixOperator) int {
 @*/
 
 /*@ func (self *Compiler) compileStmt
+    ghostat @loop-floor before-each self.pushLoop(Loop{ :: floor = ghost(depth)
+    ghostat @floor-restored before-each self.insert(newOneStringInstruction(Opcode_Label, after_label) :: floor = old(ghost(floor))
+    assert @no-pending-operands-at-loop-exit before-each self.leaveTryBlocks(self.currLoop().tryDepth, node.Span()) :: ghost(depth) == ghost(floor)
+    assert @no-pending-operands-at-return before self.leaveTryBlocks(0, node.Span()) :: ghost(depth) == b2i(node.ReturnValue != nil && node.ReturnValue.Type().Kind() != ast.NullTypeKind)
     assumes @loop-bodies-leave-nothing (node.Kind() == ast.LoopStatementKind ==> vBlockLeaves(node.(ast.AnalyzedLoopStatement).Body) == 0) && (node.Kind() == ast.WhileStatementKind ==> vBlockLeaves(node.(ast.AnalyzedWhileStatement).Body) == 0) && (node.Kind() == ast.ForStatementKind ==> vBlockLeaves(node.(ast.AnalyzedForStatement).Body) == 0)
     ghostat @trigger-registration before self.insert(newOneStringInstruction(Opcode_HostCall, RegisterTriggerHostFn), node.Span()) :: depth = ghost(depth) - 3 - len(node.TriggerArguments.List) + 1
     assert @return-leaves-only-the-result before self.leaveTryBlocks(0, node.Span()) :: ghost(depth) == old(ghost(depth)) + b2i(node.ReturnValue != nil && node.ReturnValue.Type().Kind() != ast.NullTypeKind)
